@@ -14,6 +14,7 @@ from typing import (
 )
 
 from pyparsing import (
+    Keyword,
     ParseException,
     Word,
     alphanums,
@@ -279,9 +280,9 @@ def parse_condition_expression(
     condition_parser = infix_notation(
         identifier,
         [
-            ("not", 1, opAssoc.RIGHT, ConditionNOT.from_parsed),
-            ("and", 2, opAssoc.LEFT, ConditionAND.from_parsed),
-            ("or", 2, opAssoc.LEFT, ConditionOR.from_parsed),
+            (Keyword("not", ident_chars=alphanums + "_-"), 1, opAssoc.RIGHT, ConditionNOT.from_parsed),
+            (Keyword("and", ident_chars=alphanums + "_-"), 2, opAssoc.LEFT, ConditionAND.from_parsed),
+            (Keyword("or", ident_chars=alphanums + "_-"), 2, opAssoc.LEFT, ConditionOR.from_parsed),
         ],
     )
     try:
